@@ -146,13 +146,16 @@ class DegreeConversion(Harness):
     stubs = COMMON_STUBS + (CONF_STUB,)
     _concrete = None
 
-    def __init__(self, composed):
+    def __init__(self, composed, operand_dims=False):
         self.composed = composed
-        self.name = 'eval_query.degree_conversion.' + ('pairs' if composed else 'from_number')
+        self.operand_dims = operand_dims
+        self.name = 'eval_query.degree_conversion.' + (('pairs_dimensioned_operand' if operand_dims else 'pairs') if composed else 'from_number')
         self.describe = ('`(x <s1>) -> <s2>` for all 36 ordered scale pairs, x an unbounded rational' if composed else
                          '`v -> <scale>` for v an arbitrary Number (symbolic unit): conformance gate + affine inverse')
-        self.expect_classes = ['Result::Ok'] if composed else ['Result::Ok', 'Result::Err']
+        self.expect_classes = ['Result::Ok'] if composed and not operand_dims else ['Result::Ok', 'Result::Err']
         self.bounds = ['digits mode Default']
+        if operand_dims:
+            self.describe = '`(x <s1>) -> <s2>` where the operand x carries an arbitrary unit: refused unless the operand is dimensionless, whatever the pair of scales (also s1 = s2)'
 
     def build(self, ex, I):
         x = I.real('x')
@@ -161,7 +164,12 @@ class DegreeConversion(Harness):
         s2 = SCALES[ex.choose(6, 'target scale')] if self._concrete is None else self._concrete['s2']
         if self.composed:
             s1 = SCALES[ex.choose(6, 'source scale')] if self._concrete is None else self._concrete['s1']
-            units['a'] = number(rational(x), dim({}))
+            if self.operand_dims:
+                D0, ent0 = sym_dim(ex, I, 'od', (self.K, 'm'), lo=-2, hi=2)
+                units['a'] = number(rational(x), D0)
+            else:
+                ent0 = None
+                units['a'] = number(rational(x), dim({}))
             top = expr_unary(ex, variant(ex, 'UnaryOpType', 'Degree', [variant(ex, 'Degree', s1)]), expr_unit(ex, 'a'))
             ent = None
         else:
@@ -172,20 +180,27 @@ class DegreeConversion(Harness):
         ex.env['units'] = units
         q = variant(ex, 'Query', 'Convert', [top, variant(ex, 'Conversion', 'Degree', [variant(ex, 'Degree', s2)]), none(ex),
                                              variant(ex, 'Digits', 'Default')])
-        return [ref(Opaque('Context')), ref(q)], {'x': x, 's1': s1, 's2': s2, 'ent': ent}
+        return [ref(Opaque('Context')), ref(q)], {'x': x, 's1': s1, 's2': s2, 'ent': ent, 'ent0': ent0 if self.composed else None}
 
     def post(self, ex, ctx, outcome):
         x, s1, s2, ent = zreal(ctx['x']), ctx['s1'], ctx['s2'], ctx['ent']
         r = deref_all(outcome[1])
         a2, b2 = TEXTBOOK[s2]
         if self.composed:
-            if not is_ok(r):
-                return [('conversion between scales never fails', False)]
+            if self.operand_dims:
+                dimless0 = z3.And(*[z3.Not(zbool(p)) for p, e in ctx['ent0'].values()])
+                if not is_ok(r):
+                    return [('a scale operator is refused only on an operand that carries a dimension', z3.Not(dimless0))]
+                pre = [('a scale operator on an operand that carries a dimension is refused, also inside `-> <scale>`', dimless0)]
+            else:
+                pre = []
+                if not is_ok(r):
+                    return [('conversion between scales never fails', False)]
             raw = reply_raw(ex, payload(r))
             val, d = number_parts(raw)
             kind, y = numeric_parts(val)
             a1, b1 = TEXTBOOK[s1]
-            obs = [('result is rational', kind == 'rational')]
+            obs = pre + [('result is rational', kind == 'rational')]
             if kind == 'rational':
                 # y on scale s2 denotes the same absolute temperature as x on scale s1
                 obs.append(('%s -> %s agrees with the textbook maps' % (s1, s2), zreal(a2) * zreal(y) + zreal(b2) == zreal(a1) * x + zreal(b1)))
@@ -217,6 +232,10 @@ class DegreeConversion(Harness):
 
     def native(self, inputs, label):
         x = Fraction(inputs['x'])
+        if self.composed and self.operand_dims:
+            od = conc_dim(inputs, 'od', (self.K if hasattr(self, 'K') else 'K', 'm'))
+            txt = qty_text(x, {('kelvin' if k != 'm' else 'meter'): e for k, e in od.items()})
+            return [{'mode': 'query', 'text': '(%s) %s -> %s' % (txt, SPELL[inputs['s1']], SPELL[inputs['s2']])}]
         if self.composed:
             return [{'mode': 'query', 'text': '%s %s -> %s' % (frac_text(x), SPELL[inputs['s1']], SPELL[inputs['s2']])}]
         d = conc_dim(inputs, 'd', (self.K if hasattr(self, 'K') else 'K', 'm'))
@@ -231,6 +250,10 @@ class DegreeConversion(Harness):
             return True, 'panic %s' % (q.get('panic') or q.get('render_panic'))
         got = obs_number_json(q)
         a2, b2 = TEXTBOOK[inputs['s2']]
+        if self.composed and self.operand_dims:
+            od = {k: e for k, e in conc_dim(inputs, 'od', (self.K if hasattr(self, 'K') else 'K', 'm')).items() if e}
+            if od:
+                return (q.get('outcome') == 'ok'), 'a %s reading of a quantity with unit %s converted to %s: %s' % (inputs['s1'], od, inputs['s2'], q.get('display'))
         if self.composed:
             a1, b1 = TEXTBOOK[inputs['s1']]
             want = (a1 * x + b1 - b2) / a2
@@ -248,7 +271,7 @@ class DegreeConversion(Harness):
 
     def vectors(self, rng):
         out = []
-        if self.composed:
+        if self.composed and not self.operand_dims:
             for s1 in SCALES:
                 for s2 in SCALES[:3]:
                     out.append({'x': Fraction(rng.randint(-3000, 3000), rng.choice([1, 2, 7, 10])), 's1': s1, 's2': s2})
@@ -306,7 +329,7 @@ class DegreeInCompoundTarget(Harness):
 
 
 def harnesses(tier):
-    return [DegreeOperator(s) for s in SCALES] + [DegreeConversion(True), DegreeConversion(False), DegreeInCompoundTarget()]
+    return [DegreeOperator(s) for s in SCALES] + [DegreeConversion(True), DegreeConversion(False), DegreeConversion(True, operand_dims=True), DegreeInCompoundTarget()]
 
 
 # --------------------------------------------------------------------------------------------------------------
